@@ -11,14 +11,14 @@ import json
 from mc import env, mibspec, refir
 
 BOUNDS = {
-    'quick': 'all sequences of <=2 declarations over 13 kinds x genTexts on/off; optional-part subsets per kind; '
+    'quick': 'all sequences of <=2 declarations over 14 kinds x genTexts on/off; optional-part subsets per kind; '
              '4 identifier styles per kind',
-    'thorough': 'all sequences of <=3 declarations over 13 kinds x genTexts on/off; optional-part subsets; identifier styles',
+    'thorough': 'all sequences of <=3 declarations over 14 kinds x genTexts on/off; optional-part subsets; identifier styles',
 }
 ASSUMPTIONS = ['"symbol declared" excludes SEQUENCE row types and CHOICE types (no record kind in either back end)',
                'an empty UNITS text and an absent UNITS clause are the same information']
 
-KINDS = ['value', 'oi', 'ot', 'tbl', 'nt', 'trap', 'mi', 'mc', 'og', 'ng', 'ac', 'type', 'tc']
+KINDS = ['value', 'oi', 'ot', 'tbl', 'nt', 'trap', 'mi', 'mc', 'og', 'ng', 'ac', 'type', 'tc', 'tagtype']
 STATUS = ['current', 'deprecated', 'obsolete']
 ACCESS = ['read-only', 'read-write', 'not-accessible', 'accessible-for-notify', 'read-create']
 
@@ -88,6 +88,10 @@ def make(kind, i, style='plain', opts=None):
         return [dict({'k': 'ac', 'name': n, 'release': 'release-%d' % i, 'status': st, 'oid': oid}, **txt)]
     if kind == 'type':
         return [{'k': 'type', 'name': uname(style, i), 'syntax': ('simple', 'INTEGER', ('range', [(i, 100 + i)]))}]
+    if kind == 'tagtype':
+        # a type declared through an ASN.1 tag, as the SMI base modules do
+        return [{'k': 'type', 'name': uname(style, i),
+                 'syntax': ('tagged', ('APPLICATION', 'UNIVERSAL')[i % 2], 7 + i, ('simple', 'OCTET STRING', ('size', [(4 + i,)])))}]
     if kind == 'tc':
         return [{'k': 'tc', 'name': uname(style, i), 'display': opts.get('display', 'd-%d' % i), 'status': st,
                  'descr': txt['descr'], 'ref': txt['ref'], 'syntax': ('simple', 'OCTET STRING', ('size', [(0, 10 + i)]))}]
@@ -172,7 +176,7 @@ def kindof(decls, uname_):
 
 class Sequences(object):
     name = 'kind-sequences'
-    describe = ('every sequence of declarations over 13 kinds (value, OBJECT-IDENTITY, scalar OBJECT-TYPE, a table with '
+    describe = ('every sequence of declarations over 14 kinds (value, OBJECT-IDENTITY, scalar OBJECT-TYPE, a table with '
                 'row/SEQUENCE/columns, NOTIFICATION-TYPE, TRAP-TYPE, MODULE-IDENTITY, MODULE-COMPLIANCE, OBJECT-GROUP, '
                 'NOTIFICATION-GROUP, AGENT-CAPABILITIES, type assignment, TEXTUAL-CONVENTION) after a fixed 4-declaration '
                 'context, with and without texts')
@@ -329,7 +333,7 @@ class SharedNames(object):
         return [{'k': k} for k in KINDS if k != 'tbl']
 
     def cases(self, block, tier):
-        names = ['Sym0Entry'] if block['k'] in ('type', 'tc') else ['sym0', 'sym0Entry', 'sym0Idx', 'sym0Val']
+        names = ['Sym0Entry'] if block['k'] in ('type', 'tc', 'tagtype') else ['sym0', 'sym0Entry', 'sym0Idx', 'sym0Val']
         for n in names:
             for first in (True, False):
                 yield {'k': block['k'], 'name': n, 'others_first': first}
